@@ -443,6 +443,12 @@ impl<'a, Input: InputIndexer> MatchAttempter<'a, Input> {
         debug_assert!(self.states.is_empty(), "Should be no states");
         self.states.push(init_state.clone());
         while !self.states.is_empty() {
+            #[cfg(feature = "verif-hooks")]
+            crate::verif::step(
+                crate::verif::insn_kind(&self.re.insns[self.states.last().unwrap().ip]),
+                Dir::FORWARD,
+                self.states.len(),
+            );
             let s = self.states.last_mut().unwrap();
             match try_match_state(self.re, &input, s, dir) {
                 StateMatch::Fail => {
